@@ -5,8 +5,9 @@ cd /verif
 [ -z "$(git -C /repo status --short | grep -v Cargo.lock)" ] || { echo "/repo is not clean"; exit 2; }
 out=/verif/.work/seed_regression.txt; : > $out
 # optional arguments: seed directory name patterns (default: all), e.g. 'r4-*' 'r5-*' 'r6-*'
+set -f  # patterns are expanded below seeded/ only
 PATS="${@:-*}"
-for pat in $PATS; do for d in seeded/$pat/; do
+for pat in $PATS; do set +f; for d in seeded/$pat/; do
   s=$(basename $d)
   ids=$(jq -r '.caught_by_quick | join(" ")' $d/meta.json)
   git -C /repo apply /verif/$d/patch.diff || { echo "$s patch does not apply" | tee -a $out; continue; }
